@@ -1948,12 +1948,13 @@ func (s *Netceptor) runProtocol(ctx context.Context, sess BackendSession, bi *Ba
 		return fmt.Errorf("connection cost must be positive")
 	}
 	established := false
+	costsPublished := false // the connection's costs are in knownConnectionCosts: routes may use it
 	remoteEstablished := false
 	remoteNodeID := ""
 	connectionCost := bi.connectionCost
 	defer func() {
 		_ = sess.Close()
-		if established {
+		if established || costsPublished {
 			select {
 			case s.sendRouteFloodChan <- 0:
 			case <-s.context.Done(): // only a node that is shutting down skips the announcement
@@ -2132,6 +2133,7 @@ func (s *Netceptor) runProtocol(ctx context.Context, sess BackendSession, bi *Ba
 					}
 					s.knownConnectionCosts[remoteNodeID][s.nodeID] = connectionCost
 					s.knownNodeLock.Unlock()
+					costsPublished = true
 					select {
 					case s.sendRouteFloodChan <- 0:
 					case <-ctx.Done():
